@@ -1,11 +1,11 @@
 #!/usr/bin/env python3
 # negative tests of the K1 translated-logic obligations: apply one edit to a scratch copy of the repo,
-# regenerate with genlogic, rebuild the three obligation modules, report which modules / theorems break.
+# regenerate with genlogic, rebuild the four obligation modules, report which modules / theorems break.
 # usage: cp -r /repo $SCR; cp -r <lean project> $LW; GENLOGIC=<binary> negtest.py [name-prefix ...]
 import subprocess, shutil, re, sys, os
 REPO=os.environ.get('REPO','/repo'); SCR=os.environ.get('SCR','/tmp/repo-gen'); LW=os.environ.get('LW','/tmp/lw-gen-neg')
 GENLOGIC=os.environ.get('GENLOGIC','/tmp/genlogic-gen')
-MODS=['Pokerface.Proofs.GeneratedLogic','Pokerface.Proofs.GeneratedLogicFlow','Pokerface.Proofs.GeneratedLogicSM']
+MODS=['Pokerface.Proofs.GeneratedLogic','Pokerface.Proofs.GeneratedLogicFlow','Pokerface.Proofs.GeneratedLogicSM','Pokerface.Proofs.GeneratedLogicGlue']
 ENV=dict(os.environ, GOFLAGS='-mod=mod', GOPROXY='off', GOSUMDB='off', GOTOOLCHAIN='local')
 def run(name, file, old, new, count=1):
     src=open(f'{REPO}/{file}').read()
@@ -122,6 +122,44 @@ tests=[
  ('onReadyRequested','event.go','func (g *game) onReadyRequested() error {\n\treturn nil','func (g *game) onReadyRequested() error {\n\treturn g.EmitEvent(GameEvent_Readiness)'),
  ('game-call-wrapper','action.go','return g.GetCurrentPlayer().Call()','return g.Dealer().Call()'),
  ('enterFlop','game.go','g.gs.Status.Round = "flop"\n\treturn g.EmitEvent(GameEvent_FlopRoundEntered)','g.gs.Status.Round = "flop"\n\treturn g.EmitEvent(GameEvent_TurnRoundEntered)'),
+ # ---- group Glue: settlement.go CalculateGameResults, pot.go updatePots, power.go UpdateCombinationOfAllPlayers ----
+ ('cgr-fold-scored-with-power','settlement.go','r.UpdateScore(p.Idx, 0)\n\t\t\tcontinue','r.UpdateScore(p.Idx, p.Combination.Power)\n\t\t\tcontinue'),
+ ('cgr-fold-no-continue','settlement.go','r.UpdateScore(p.Idx, 0)\n\t\t\tcontinue','r.UpdateScore(p.Idx, 0)'),
+ ('cgr-fold-cond-flipped','settlement.go','\t\tif p.Fold {\n\t\t\tr.UpdateScore','\t\tif !p.Fold {\n\t\t\tr.UpdateScore'),
+ ('cgr-fold-not-scored','settlement.go','\t\t\tr.UpdateScore(p.Idx, 0)\n\t\t\tcontinue','\t\t\tcontinue'),
+ ('cgr-bankroll-other-field','settlement.go','r.AddPlayer(p.Idx, p.Bankroll)','r.AddPlayer(p.Idx, p.StackSize)'),
+ ('cgr-bankroll-initial','settlement.go','r.AddPlayer(p.Idx, p.Bankroll)','r.AddPlayer(p.Idx, p.InitialStackSize)'),
+ ('cgr-bankroll-plus-stack','settlement.go','r.AddPlayer(p.Idx, p.Bankroll)','r.AddPlayer(p.Idx, p.Bankroll+p.Pot)'),
+ ('cgr-score-wrong-idx','settlement.go','r.UpdateScore(p.Idx, p.Combination.Power)','r.UpdateScore(0, p.Combination.Power)'),
+ ('cgr-score-negated','settlement.go','r.UpdateScore(p.Idx, p.Combination.Power)','r.UpdateScore(p.Idx, -p.Combination.Power)'),
+ ('cgr-add-after-score','settlement.go','\t\tr.AddPlayer(p.Idx, p.Bankroll)\n\n\t\t// No score if player fold already\n\t\tif p.Fold {\n\t\t\tr.UpdateScore(p.Idx, 0)\n\t\t\tcontinue\n\t\t}\n','\t\tif p.Fold {\n\t\t\tr.UpdateScore(p.Idx, 0)\n\t\t\tcontinue\n\t\t}\n\t\tr.AddPlayer(p.Idx, p.Bankroll)\n'),
+ ('cgr-pot-wager-as-total','settlement.go','r.AddPot(pot.Total, pot.Levels)','r.AddPot(pot.Wager, pot.Levels)'),
+ ('cgr-pot-no-levels','settlement.go','r.AddPot(pot.Total, pot.Levels)','r.AddPot(pot.Total, nil)'),
+ ('cgr-pots-skip-first','settlement.go','for _, pot := range g.gs.Status.Pots {','for _, pot := range g.gs.Status.Pots[1:] {'),
+ ('cgr-no-calculate','settlement.go','\tr.Calculate()\n',''),
+ ('cgr-result-not-stored','settlement.go','\tg.gs.Result = r\n','\t_ = r\n'),
+ ('cgr-players-before-pots','settlement.go','\tfor _, pot := range g.gs.Status.Pots {\n\t\tr.AddPot(pot.Total, pot.Levels)\n\t}\n','',),
+ ('up-pot-without-wager','pot.go','ll.AddContributor(p.Pot+p.Wager, p.Idx, p.Fold)','ll.AddContributor(p.Pot, p.Idx, p.Fold)'),
+ ('up-wager-without-pot','pot.go','ll.AddContributor(p.Pot+p.Wager, p.Idx, p.Fold)','ll.AddContributor(p.Wager, p.Idx, p.Fold)'),
+ ('up-pot-minus-wager','pot.go','ll.AddContributor(p.Pot+p.Wager, p.Idx, p.Fold)','ll.AddContributor(p.Pot-p.Wager, p.Idx, p.Fold)'),
+ ('up-fold-flag-dropped','pot.go','ll.AddContributor(p.Pot+p.Wager, p.Idx, p.Fold)','ll.AddContributor(p.Pot+p.Wager, p.Idx, false)'),
+ ('up-fold-flag-acted','pot.go','ll.AddContributor(p.Pot+p.Wager, p.Idx, p.Fold)','ll.AddContributor(p.Pot+p.Wager, p.Idx, p.Acted)'),
+ ('up-skip-folded','pot.go','\t\tll.AddContributor(p.Pot+p.Wager, p.Idx, p.Fold)','\t\tif p.Fold {\n\t\t\tcontinue\n\t\t}\n\t\tll.AddContributor(p.Pot+p.Wager, p.Idx, p.Fold)'),
+ ('up-pots-appended','pot.go','g.gs.Status.Pots = ll.GetPots()','g.gs.Status.Pots = append(g.gs.Status.Pots, ll.GetPots()...)'),
+ ('up-players-from-dealer','pot.go','for _, p := range g.gs.Players {\n\t\tll.AddContributor','for _, p := range g.gs.Players[1:] {\n\t\tll.AddContributor'),
+ ('uc-cards-not-updated','power.go','\t\tp.Combination.Cards = make([]string, 0)\n\t\tfor _, c := range ps.Cards {\n\t\t\tp.Combination.Cards = append(p.Combination.Cards, c.ToString())\n\t\t}\n',''),
+ ('uc-cards-only-cleared','power.go','\t\tfor _, c := range ps.Cards {\n\t\t\tp.Combination.Cards = append(p.Combination.Cards, c.ToString())\n\t\t}\n',''),
+ ('uc-cards-not-fresh','power.go','\t\tp.Combination.Cards = make([]string, 0)\n',''),
+ ('uc-cards-loop-body','power.go','p.Combination.Cards = append(p.Combination.Cards, c.ToString())','p.Combination.Cards = append(p.Combination.Cards, c.Suit)'),
+ ('uc-power-from-category','power.go','p.Combination.Power = int(ps.Score)','p.Combination.Power = int(ps.Combination)'),
+ ('uc-type-from-score','power.go','combination.CombinationSymbol[ps.Combination]','combination.CombinationSymbol[combination.Combination(ps.Score)]'),
+ ('uc-power-not-updated','power.go','\t\tp.Combination.Power = int(ps.Score)\n',''),
+ ('uc-type-not-updated','power.go','\t\tp.Combination.Type = combination.CombinationSymbol[ps.Combination]\n',''),
+ ('uc-power-before-guard','power.go','\t\tif p.Combination == nil {\n\t\t\tcontinue\n\t\t}\n','\t\tif p.Combination == nil {\n\t\t\tp.Combination = &CombinationInfo{}\n\t\t}\n'),
+ ('uc-guard-flipped','power.go','if p.Combination == nil {\n\t\t\tcontinue','if p.Combination != nil {\n\t\t\tcontinue'),
+ ('uc-power-source','power.go','ps := g.CalculatePlayerPower(p)\n','ps := g.CalculateCombinationPower(p.HoleCards)\n'),
+ ('uc-power-source-other-player','power.go','ps := g.CalculatePlayerPower(p)\n','ps := g.CalculatePlayerPower(g.gs.Players[0])\n'),
+ ('CONTROL-glue-comments','settlement.go','\t\tr.AddPlayer(p.Idx, p.Bankroll)\n','\t\t// the stack the player brought\n\t\tr.AddPlayer(p.Idx,\n\t\t\tp.Bankroll)\n\n\n'),
  ('CONTROL-loop-comments','game.go','\t\t\tp := g.NextPlayer()\n\n\t\t\tif p.CheckPosition("bb") {','\t\t\t// walk\n\n\n\t\t\tp := g.NextPlayer()\n\t\t\tif p.CheckPosition("bb") { // found'),
  ('CONTROL-harmless-format','player.go','\tdelta := gs.Status.CurrentWager - p.state.Wager\n','\t// the amount to add\n\tdelta := gs.Status.CurrentWager -\n\t\tp.state.Wager\n\n'),
 ]
